@@ -185,6 +185,10 @@ fn check_program(name: &str, m: &Module, budgets: &[u64], out: &mut ChunkResult)
         }
         all.push(k * 2 + 10);
     }
+    if needed.is_some() {
+        // the far end of the domain (N is a u64)
+        all.extend([1u64 << 32, 1u64 << 63, u64::MAX - 1, u64::MAX]);
+    }
     all.sort();
     all.dedup();
     for n in all {
@@ -192,7 +196,8 @@ fn check_program(name: &str, m: &Module, budgets: &[u64], out: &mut ChunkResult)
         out.evaluations += 1;
         out.traces += 1;
         let t0 = std::time::Instant::now();
-        let got = realrun::run_program(m, &prog, &natives, &RunCfg { max_instr: n, ..Default::default() });
+        // the budget is configured the way a host does it: through Vm::with_max_iter
+        let got = realrun::run_program_builder(m, &prog, &natives, &RunCfg { max_instr: n, ..Default::default() });
         out.transitions += got.instr_count;
         let case = json!({"program": name, "budget": n});
         if let Some(p) = &got.panic {
